@@ -1590,7 +1590,8 @@ LEVEL = {
             "tabs; identifiers with escapes, quoted strings); TTL decimal and BIND8-unit forms; the reader = denotation (fold of txn.add) of a "
             "zone-independent parser trace; header spelling equivalences at character level (TTL/class order, inherited class/TTL/owner, "
             "relative vs absolute names); out-of-zone owners ignored; CNAME exclusivity of every load; $GENERATE index = its expansion line and the $GENERATE line = the text of its expansion from any reader state, also after any run of "
-            "$ORIGIN directives (current origin distinct from the zone origin: names completed with the former, stored relative to the latter); "
+            "$ORIGIN directives (current origin distinct from the zone origin: names completed with the former, stored relative to the latter); the TTL of a line that states none: one rule for _rr_line and _generate_line (default TTL first, last stated TTL second) and "
+            "a TTL-less $GENERATE line = its TTL-less expansion incl. TTLs (generate_eq_expansion_inherited_ttl); "
             "and read_write_lossless: write-then-read is the identity for EVERY lossless style of the model — sorted, want_origin ($ORIGIN, also "
             "read back without being given the origin), default_ttl/$TTL (any value incl. 0), deduplicate_names, owner left-justification and "
             "either justification of the TTL/class/type columns, want_comments, omit_rdclass, want_generic, name-style origin/relativize, hex "
